@@ -55,6 +55,10 @@ TABLE = {
    text='client generations built from the quantifier\'s history elements run one after another on one persistent real server; for a history with K application-handler invocations every single fault position (that invocation raises; quick tier samples up to 7) plus the fault-free run, every end cause, optional application operations on the departed sid; after each transport ends: API-level residue (rooms, is_connected, get_environ, get_participants over all rooms), manager listings and the number of objects reachable from the server (gc reachability) must equal the baseline taken after a clean warm-up generation, and a probe client must be served exactly as on the fresh server',
    note='closed engine.io sockets are removed the way engineio.Server.handle_request does; GraphSize skips types/modules/functions/loggers and shared immutable scalars; single-host managers',
    tech='runtime monitoring: fault injection at every handler invocation + leak monitor (gc reachability count) + API residue + differential probe trace'),
+ 'C12': dict(cat='exploration',
+   text='attacks on a real Server/AsyncServer: one offender sends 30-120 generated frames (grammar-based mutations of valid packets, raw random text/bytes, mutated msgpack maps, a quarter of them through engine.io\'s own packet decoding) interleaved with well-formed bystander events, broadcasts and pending callbacks; monitors: no handler invocation or frame for a bystander during offender input, bystander rooms/session/connection unchanged, handler arguments derivable from the offending frame, post-attack probes (bystander callbacks complete, fresh client served), per-frame allocation bound with tracemalloc under RLIMIT_AS',
+   note='engine.io contains the exceptions raised by the message callback (trusted); the offender\'s own connection may be left unusable; allocation bound 400 B per input byte + 600 kB',
+   tech='runtime monitoring: grammar-based hostile workload + bystander trace/state monitors + allocation monitor (tracemalloc)'),
 }
 # filled in as checks are built; see bottom of file for the not-built reason
 
